@@ -62,7 +62,7 @@ func resClass(err error, panicked bool) string {
 
 // ---- generators ----
 
-var schemaNames = []string{"", "a", "b", "ab", "a_b", "c", "bc", "b_c", "_", "id", "t", "u"}
+var schemaNames = []string{"", "a", "b", "ab", "a_b", "c", "bc", "b_c", "_", "id", "t", "u", "a ", " b"} // names are byte strings: white space is not trimmed
 var typeNames = []string{"", "a", "b", "ab", "a_b", "t"}
 
 func genRel(r *Rng) jsonapi.Rel {
@@ -485,6 +485,15 @@ func twinsCheckSchema(r *Rng, o *Out) *jsonapi.Schema {
 			"k1": {FromType: "d", FromName: "e", ToType: "a", ToName: "x", FromOne: true},
 		}
 		delete(a.Rels, "y")
+	case 4:
+		// the relationship a.x names as its inverse exists only as a map KEY: the
+		// relationship stored under "e" has no name (a literal may leave FromName out),
+		// so nothing named e points back and both ends offend
+		d.Rels = map[string]jsonapi.Rel{
+			"e": {FromType: "d", FromName: "", ToType: "a", ToName: "x", FromOne: true},
+		}
+		delete(a.Rels, "y")
+		o.stat("check.unnamed-under-key")
 	}
 	s := &jsonapi.Schema{}
 	if r.bool() {
